@@ -22,9 +22,10 @@ class C10(Cfg):
                   "every construction path of the model (validate_room_mutation, load_json after LOAD_QUERY, RoomNode::parse after RoomNode::read, "
                   "prepare_room_with_history) installs a room that agrees with the stored rows, hence all paths give the same decisions; "
                   "with ascending replay (Defects.none) reload of any stored definition succeeds. "
-                  "For the code as it is (Defects.asImplemented) the full statement is FALSE: decide-checked witnesses for newest-first replay (#4), "
-                  "right normalisation skipped on reload (#5), rooms without group/admin dropped on reload, the new-group user rule (#33) and "
-                  "equal-date conflicting entries; the guarded statement (one date per key and list, normalised rights, complete room) is proved. "
+                  "Each deviation found is a switch with a decide-checked witness: newest-first replay (#4), right normalisation skipped on reload (#5), rooms "
+                  "without group/admin dropped on reload — all three FIXED in /repo since (f7a29ff, be6bedc, ee57a96; switches off in Defects.asImplemented, replays "
+                  "kept as regression cases) — and, still open: the new-group user rule (#33), equal-date conflicting entries, a group created by a non-admin, "
+                  "an older entry brought by a concurrent edit; the guarded statement (one date per key and list, normalised rights, complete room) is proved for any switch values. "
                   "The model is tied to /repo by running both on the same generated histories and comparing every verdict and every decision matrix.")
     level_note = ("Trusted: Lean kernel (+propext, Classical.choice, Quot.sound), the hand-written model lean/DiscretModel/Model/{Room,RoomBuild}.lean and "
                   "its correspondence harness. Modelled and exercised: room.rs, validate_room_mutation, load_json/LOAD_QUERY, RoomNode::read/parse, "
@@ -172,7 +173,21 @@ class C10(Cfg):
                                     if e.key == author and e.date <= d2 and (best is None or e.date >= best.date): best = e
                                 if not (best and best.payload): return True
                         return False
-                    if out == "err:invalid-node" and not dst and group_creator_not_admin():
+                    # concurrent edits: the candidate brings, for a key the receiver already has a LATER entry of, an
+                    # entry with an earlier date (admins / user admins are appended to the receiver's live room)
+                    def older_entry_for_known_key():
+                        have = {}
+                        for j in dst:
+                            for e in entries[j]:
+                                k2 = (e.lst, e.key)
+                                have[k2] = max(have.get(k2, e.date), e.date)
+                        return any((e.lst, e.key) in have and e.date < have[(e.lst, e.key)]
+                                   for j in src - dst for e in entries[j])
+                    if out == "err:date" and dst and older_entry_for_known_key():
+                        res.append(("import-merge-older-entry-refused",
+                                    "export of site %d refused by site %d which holds an earlier version (%s): the candidate carries an entry older than the last entry the receiver holds for the same key (concurrent edits)"
+                                    % (fr, to, out)))
+                    elif out == "err:invalid-node" and not dst and group_creator_not_admin():
                         res.append(("import-fails-group-created-by-non-admin",
                                     "export of site %d refused by the fresh site %d (%s): a group of the room was created by a key that is not admin of the room"
                                     % (fr, to, out)))
